@@ -146,6 +146,11 @@ def _validate_h5ad(
         new_h5ad_path = output_dir / f'{h5ad_name}_VALIDATED_{timestamp}.h5ad'
     else:
         new_h5ad_path = pathlib.Path(valid_h5ad_path)
+        if new_h5ad_path.resolve() == original_h5ad_path.resolve():
+            raise RuntimeError(
+                "valid_h5ad_path is the h5ad file being validated; "
+                "validation never overwrites (or removes) its input. "
+                "Specify a different valid_h5ad_path")
 
     write_to_new_path = False
     has_warnings = False
